@@ -12,7 +12,9 @@ from .accmodel import Model as BreakModel, atom_matcher
 COMMANDS = ('help', 'list', 'filter', 'breakpoint', 'matcher', 'connection', 'resume', 'quit')
 ATOMS = ['wl_display', '.sync', '.done', '.commit', '900', 'wl_callback.done', '.bind', 'wl_registry', '.delete_id', 'wl_callback', 'A:', 'B:', 'C:', '.new', '.destroyed', '2', '3', '3a', '2b', 'wl_callback.done',
          '(callback=)', 'wl_*', 'xdg_*', '.get_registry', 'wl_display.delete_id', '(nil)', '.global', 'wl_surface', '.commit', '4', 'B: wl_display',
-         '9', '9a', '90', '9.sync', '10', '91', '8']
+         '9', '9a', '90', '9.sync', '10', '91', '8',
+         # the same spelling as a string and as a word (type / label): different alternatives that print alike
+         '("wl_seat")', '(wl_seat)', '("wl_compositor")', '(wl_compositor)', '("wl_shm")', '(wl_shm)', '("7")', '(7)']
 MALFORMED = ['(', 'a.b.c', '[x', 'x ! y ! z']
 
 
@@ -227,6 +229,13 @@ class PluginExec:
     def _invariants(self, res, op):
         if not self.check_c15:
             return
+        if op[0] == 'destroy' and self.sel is not None and not self.quit:
+            # libwayland destroying a connection does not change which connection the user is looking at
+            n0 = len(self.drv.out.buffer)
+            self.drv.ctl.process_command('connection')
+            marked = [l for l in self.drv.out.buffer[n0:].split('\n') if l.startswith(' => ')]
+            if len(marked) != 1 or not marked[0].startswith(' => %s (' % self.sel):
+                res.bad('selection-lost-on-destroy', 'connection %s was selected; after %r the list of connections marks %r' % (self.sel, op[:3], marked))
         real = list(self.drv.cm.connections())
         if [c.name() for c in real] != [m['name'] for m in self.all]:
             res.bad('connection-list', 'after %r: %r, model %r' % (op[:3], [c.name() for c in real], [m['name'] for m in self.all]))
@@ -413,6 +422,35 @@ def make_machine(col, stage, tier, check_c10, check_c15, weights):
                 self._do(['msg', addr, 1, dict(gdbsim.closure_of_message(m, g.side, addr, decl), thread_name='main')])
                 self.gens.pop(addr, None)
                 self._do(['destroy', addr, 1, False])
+
+        @rule(data=st.data())
+        def twin_breakpoints(self, data):
+            """two breakpoints that print alike but are not alike: a quoted string and the same spelling as a word (type / label)"""
+            if self.ex is None or self.ex.quit or not check_c10 or getattr(self, 'twins_done', False):
+                return
+            d = Draw(data)
+            if not d.chance(0.6):
+                return
+            self.twins_done = True
+            w = d.choice(['wl_seat', 'wl_compositor', 'wl_shm', 'wl_seat'])
+            pair = ['("%s")' % w, '(%s)' % w]
+            if d.chance(0.25):
+                pair.reverse()
+            if d.chance(0.8):
+                self._do(['cmd', 'wl', 'breakpoint !'])
+            for t in pair:
+                self._do(['cmd', 'wl', 'breakpoint ' + t])
+            # ... and a message only the string one selects: a registry bind of that interface
+            live = [a for a in sorted(self.gens) if a in self.ex.open and 2 in self.gens[a].live]
+            if live and not self.ex.quit:
+                addr = d.choice(live)
+                g = self.gens[addr]
+                m = g.step_bind(d, iface=w)
+                if m is not None:
+                    self.t += 1000
+                    m['conn'] = None
+                    m['t_us'] = self.t
+                    self._do(['msg', addr, self.ex.open[addr]['thread'], dict(gdbsim.closure_of_message(m, g.side, addr, None), thread_name='main')])
 
         @rule(data=st.data())
         def everything_after_exclusions(self, data):
